@@ -224,6 +224,8 @@ def _threading(ctx, P):
                 bad = f"apply_ufunc is not applied to interp_1d_linear ({a[0]!r})"
             elif [x.name for x in a[1:]] != ["phi", "theta", "levels"]:
                 bad = f"arguments {[x.name for x in a[1:]]}; expected (phi, theta, target levels)"
+            elif any(not all(e[0] in ("rename", "transpose", "copy") for e in x.eff) for x in a[1:]):
+                bad = f"the kernel does not receive the caller's arrays as they are (operations {[[e[0] for e in x.eff] for x in a[1:]]}; only dimension renames are expected)"
             elif kk != {"mask_edges": Sym("U_MASK"), "bypass_checks": Sym("U_BYPASS"), "logarithmic": Sym("U_LOG")}:
                 bad = f"kernel keyword arguments {kk!r}; expected mask_edges, bypass_checks, logarithmic as given (and not the suffix)"
             else:
